@@ -13,6 +13,8 @@ import LinVerif.Lemmas.C01Entries
 import LinVerif.Lemmas.C01Torn
 import LinVerif.Lemmas.C01Family
 import LinVerif.Lemmas.C01Sched
+import LinVerif.Lemmas.C01CreateFam
+import LinVerif.Model.C01Switch
 import LinVerif.Generated.C04
 import LinVerif.Generated.C01
 
@@ -515,6 +517,115 @@ theorem initJournal_trace (vs : VS) :
       ((snapshot vs).map (fun el => FsOp.appendRec vs.manifestNo (marshal el)) ++
         [FsOp.writeCurrentTmp vs.manifestNo, FsOp.renameCurrent]) := initJournalOps_eq vs
 
+/-! ## 5b. the switch of the live manifest is ONE file-system operation (seed c01-22)
+
+`tie_setCurrent_order` above only fixes the relative order of the two calls the model knows. The
+statements below are about EVERY file-system call setCurrent makes now (`ioCalls` of the regenerated
+call list: everything not known to be pure): an added remove / rewrite of CURRENT changes the list the
+theorem runs. -/
+
+/-- regenerated: the file-system calls of setCurrent are exactly the tmp write and the rename -/
+theorem tie_setCurrent_io : C01Switch.ioCalls Generated.C01.setCurrentCalls = setCurrentSteps := by decide
+
+/-- **current_switch_atomic.** At every point between two file-system operations of setCurrent (every
+prefix `k` of its regenerated file-system calls), CURRENT names the old manifest or the new one — it
+is never missing and never anything else; recovery therefore always replays a complete manifest and
+never takes the "brand-new store" path on a store that has one. -/
+theorem current_switch_atomic (old n : Int) (t : Option Int) (k : Nat) :
+    let c := C01Switch.runCur n ⟨some old, t⟩ ((C01Switch.ioCalls Generated.C01.setCurrentCalls).take k)
+    c.current = some old ∨ c.current = some n := by
+  rw [tie_setCurrent_io]
+  match k with
+  | 0 => simp [C01Switch.runCur]
+  | 1 => simp [C01Switch.runCur, setCurrentSteps, C01Switch.stepCur]
+  | k + 2 => simp [C01Switch.runCur, setCurrentSteps, C01Switch.stepCur]
+
+/-- the disk model's setCurrent is that list: same CURRENT after every prefix -/
+theorem switch_model_agrees (d : Disk) (n : Int) (k : Nat) :
+    (applyFsList d ((setCurrentOps n).take k)).current =
+      (C01Switch.runCur n ⟨d.current, d.currentTmp⟩ ((C01Switch.ioCalls Generated.C01.setCurrentCalls).take k)).current := by
+  rw [tie_setCurrent_io]
+  have h : setCurrentOps n = [FsOp.writeCurrentTmp n, FsOp.renameCurrent] := by
+    simp [setCurrentOps, setCurrentSteps]
+  rw [h]
+  match k with
+  | 0 => simp [C01Switch.runCur, applyFsList]
+  | 1 => simp [C01Switch.runCur, applyFsList, setCurrentSteps, C01Switch.stepCur, applyFs]
+  | k + 2 => simp [C01Switch.runCur, applyFsList, setCurrentSteps, C01Switch.stepCur, applyFs]
+
+/-! ## 5c. concurrent creators of one family (seed c01-21)
+
+`store.CreateFamily` as the atomic steps the code has (Model/C01CreateFam.lean): the read-locked lookup,
+then the write-lock region. Whether that region — "is the family new", id assignment, OPTIONS, the open
+(mkdir + family version), the publication — is ONE atomic step is the regenerated fact below. -/
+
+/-- regenerated: `defer s.rwMutex.Unlock()` follows the Lock directly, no explicit Unlock / second Lock
+afterwards, and the one publication `s.families[name] = family` is after the Lock -/
+def createFamilyHeld : Bool :=
+  Generated.C01.createFamilyLockHeldToReturn && Generated.C01.createFamilyPublishesAfterLock == 1
+
+/-- the creators' model as the source stands now -/
+def cfCfg : C01CF.Cfg := ⟨createFamilyHeld, Generated.C01.createFamilyRechecksUnderLock⟩
+
+theorem cfCfg_is_driver_cfg : cfCfg = ⟨Generated.C01.createFamilyLockHeldToReturn && Generated.C01.createFamilyPublishesAfterLock == 1,
+    Generated.C01.createFamilyRechecksUnderLock⟩ := rfl
+
+theorem tie_createFamily_lock_region :
+    createFamilyHeld = true ∧
+    only ["fileutil.Exist", "familySeq.Inc", "s.dumpStoreInfo", "newFamilyFunc"] Generated.C01.createFamilyUnderLockCalls
+      = ["fileutil.Exist", "familySeq.Inc", "s.dumpStoreInfo", "newFamilyFunc"] ∧
+    only ["s.dumpStoreInfo", "newFamilyFunc"] Generated.C01.createFamilyCalls = createFamilySteps := by decide
+
+/-- **createFamily_one_id_per_name.** For ANY number of goroutines calling CreateFamily with any names and
+EVERY interleaving of their atomic steps (and of flushes / cleanups through the handles): all handles
+ever returned for one family name carry the same id, and that id is the one OPTIONS holds, the one the
+version set's family version has, the one storeInfo has. Every commit through any handle is therefore
+journaled under an id that recovery (which reads OPTIONS first) knows: the store stays reopenable.
+Distinct names have distinct ids. Proved for the lock region the source has NOW (`cfCfg`). -/
+theorem createFamily_one_id_per_name (steps : List C01CF.Step) :
+    let s := C01CF.run cfCfg C01CF.St.init steps
+    (∀ nm h₁ h₂, (nm, h₁) ∈ s.opened → (nm, h₂) ∈ s.opened → h₁.id = h₂.id) ∧
+    (∀ nm h, (nm, h) ∈ s.opened → s.options nm = some h.id ∧ s.fvs nm = some h.id ∧ s.info nm = some h.id) ∧
+    (∀ a b h₁ h₂, (a, h₁) ∈ s.opened → (b, h₂) ∈ s.opened → h₁.id = h₂.id → a = b) := by
+  have hheld : cfCfg.held = true := by decide
+  have hi := C01CF.inv_run cfCfg hheld steps C01CF.inv_init
+  refine ⟨?_, ?_, ?_⟩
+  · intro nm h₁ h₂ m₁ m₂
+    have e₁ := hi.opened_info nm h₁ m₁
+    have e₂ := hi.opened_info nm h₂ m₂
+    rw [e₁] at e₂
+    exact Option.some.inj e₂
+  · intro nm h m
+    exact ⟨(hi.options_info nm).trans (hi.opened_info nm h m), hi.opened_fv nm h m, hi.opened_info nm h m⟩
+  · intro a b h₁ h₂ m₁ m₂ he
+    exact hi.info_inj a b h₁.id (hi.opened_info a h₁ m₁) (he ▸ hi.opened_info b h₂ m₂)
+
+/-- the same from any state in which the ids agree (e.g. the state after an open), for any re-check setting -/
+theorem createFamily_keeps_ids (recheck : Bool) (s : C01CF.St) (hi : C01CF.Inv s) (steps : List C01CF.Step) :
+    C01CF.Inv (C01CF.run ⟨true, recheck⟩ s steps) :=
+  C01CF.inv_run ⟨true, recheck⟩ rfl steps hi
+
+/-- **createFamily_one_object_with_recheck.** When CreateFamily looks `s.families` up again under the write
+lock, every interleaving hands out ONE family object per name (so one pendingOutputs set per family, which
+is what `unfinished_writer_table_never_deleted` assumes). The source as it stands does NOT re-check: see
+`Neg.concurrent_creators_get_two_family_objects`. -/
+theorem createFamily_one_object_with_recheck (steps : List C01CF.Step) :
+    let s := C01CF.run ⟨true, true⟩ C01CF.St.init steps
+    ∀ nm h₁ h₂, (nm, h₁) ∈ s.opened → (nm, h₂) ∈ s.opened → h₁ = h₂ := by
+  intro s nm h₁ h₂ m₁ m₂
+  have hs := C01CF.single_run ⟨true, true⟩ rfl rfl steps C01CF.single_init
+  have e₁ := hs nm h₁ m₁
+  have e₂ := hs nm h₂ m₂
+  rw [e₁] at e₂
+  exact Option.some.inj e₂
+
+/-- a cleanup through a family object never removes a pending output of THAT object -/
+theorem cleanup_keeps_own_pending (cfg : C01CF.Cfg) (s : C01CF.St) (hid nm n : Nat)
+    (hp : n ∈ s.pending hid) (ht : n ∈ s.tables nm) :
+    n ∈ (C01CF.step cfg s (.cleanup hid nm)).tables nm := by
+  simp only [C01CF.step, C01CF.upd_same, List.mem_filter]
+  exact ⟨ht, by simp [hp]⟩
+
 /-! ## 6. non-vacuity: the hypotheses are satisfiable by a non-trivial history -/
 
 def exCfg : Cfg := ⟨2, [300000]⟩
@@ -635,6 +746,58 @@ theorem snapshot_before_lock_loses_commit :
       = some (some 0) := by
   decide
 
+/-- setCurrent with a remove of the previous CURRENT between the tmp write and the rename (seed c01-22):
+after two of its three file-system operations there is no CURRENT -/
+theorem remove_before_rename_no_current :
+    (C01Switch.runCur 5 ⟨some 1, none⟩ (["writeFileFunc", "removeFunc", "renameFunc"].take 2)).current = none := by decide
+
+/-- … and a store directory that holds a committed flush but no CURRENT is opened as a brand-new store:
+the family comes up without files and newStore's deferred cleanup removes the manifest and the table -/
+theorem no_current_recovers_empty_and_deletes :
+    let d := ((execAll exCfg St.init [.run .openS, .run (.createFamily 10 1), .run (.flushStart 10 [(1, 100)] []),
+      .run (.flushCommit 10 55), .run .close]).map (·.disk)).getD Disk.empty
+    let d' : Disk := { d with current := none }
+    ((openStore exCfg d).1.map (fun m => m.vs.fams.map (fun f => f.ver.files.length))) = some [1] ∧
+    ((openStore exCfg d').1.map (fun m => m.vs.fams.map (fun f => f.ver.files.length))) = some [0] ∧
+    FsOp.removeTable 10 2 ∈ (openStore exCfg d').2 := by decide
+
+/-- CreateFamily with the open OUTSIDE the write lock (seed c01-21: Unlock after the OPTIONS dump, newFamily
+unlocked, Lock again to publish): creator 0 stops between the dump and its mkdir, creator 1 runs through
+(the directory does not exist: a second id, OPTIONS rewritten), creator 0 continues. Handle 0 carries id 1,
+OPTIONS holds 2: commits through handle 0 are journaled under an id recovery does not know. -/
+theorem open_outside_lock_two_ids :
+    let s := C01CF.run ⟨false, false⟩ C01CF.St.init (C01CF.raceSchedule ⟨false, false⟩ 11 "pre-mkfam")
+    s.opened = [(11, ⟨0, 2⟩), (11, ⟨1, 1⟩)] ∧ s.options 11 = some 2 ∧ s.fvs 11 = some 2 := by decide
+
 end Counterfactual
+
+/-! ## 9. proved negation: two concurrent creators of one new family get two family OBJECTS
+
+`store.CreateFamily` does not look `s.families` up again after taking the write lock. Both creators miss in
+the read-locked lookup; the second one finds the directory, builds a SECOND family object (same id, same
+family version, its own pendingOutputs) and overwrites `s.families[name]`. The first caller keeps its
+object. A table being written through one object is not a pending output of the other: the other's
+deleteObsoleteFiles removes it, the flush then commits a table that is gone. -/
+namespace Neg
+
+/-- the schedule: both miss, both run the write-lock region one after the other -/
+def twoCreators : List C01CF.Step := [.fast 0 11, .fast 1 11, .region 0, .region 1]
+
+theorem concurrent_creators_get_two_family_objects :
+    let s := C01CF.run ⟨true, false⟩ C01CF.St.init twoCreators
+    s.opened = [(11, ⟨0, 1⟩), (11, ⟨1, 1⟩)] ∧ s.fams 11 = some ⟨1, 1⟩ := by decide
+
+/-- a flusher of object 0 has table 7 open, object 1 (the published one) cleans up, the flusher commits:
+table 7 is referenced by the current version and is not in the directory -/
+theorem second_object_cleanup_deletes_unfinished_table :
+    let s := C01CF.run ⟨true, false⟩ C01CF.St.init (twoCreators ++ [.fstart 0 11 7, .cleanup 1 11, .fcommit 0 11 7])
+    s.live 11 = [7] ∧ s.tables 11 = [] := by decide
+
+/-- with the re-check the same schedule hands out one object and the table survives -/
+theorem recheck_repairs_it :
+    let s := C01CF.run ⟨true, true⟩ C01CF.St.init (twoCreators ++ [.fstart 0 11 7, .cleanup 0 11, .fcommit 0 11 7])
+    s.opened = [(11, ⟨0, 1⟩), (11, ⟨0, 1⟩)] ∧ s.live 11 = [7] ∧ s.tables 11 = [7] := by decide
+
+end Neg
 
 end LinVerif.Props.C01
